@@ -214,6 +214,49 @@ def run(ctx, rep):
         rep.notes.append('default vs %s: %d of %d fatfs bodies differ or exist on one side only' % (cfg, ndiff, len(names)))
         if ndiff == 0:
             rep.machinery('R19.1 default vs %s: no body differs at all (the reduced configuration was not analysed?)' % cfg)
+    # ---------------- R19.4 without `unicode` the fold is ASCII upper-casing, exactly, for every ASCII character
+    try:
+        api, facts_p, dt = extract('nounicode', ctx.repo)
+        nu = Facts(api, facts_p)
+        CU = nu.fns.get('fatfs::dir_entry::char_to_uppercase')
+        if CU is None:
+            rep.machinery('ANCHOR-MISSING fatfs::dir_entry::char_to_uppercase in the build without `unicode`')
+        else:
+            from decision import decision_table
+
+            def classify(w, blk, env, refs, phase):
+                t = CU.blocks[blk]['term']
+                c = env.get((1, ()))
+                if phase == 'call' and (t.get('callee') or '').endswith('::once') and t['args']:
+                    v = w.val_of_operand(env, refs, t['args'][0])
+                    return 'unknown' if v is None or c is None else 'c%+d' % (v - c)
+                if phase == 'exit':
+                    return 'no-result'
+                return None
+
+            rows, _consts = decision_table(CU, (1, ()), CU.local_ty(1), 0, classify, extra_consts=range(0, 0x81), facts=nu)
+            from decision import diff_tables
+            want_tbl = [(0, 0x60, frozenset(['c+0'])), (0x61, 0x7A, frozenset(['c-32'])), (0x7B, 0x7F, frozenset(['c+0']))]
+            got_tbl = [(a, min(b, 0x7F), o) for a, b, o in rows if a <= 0x7F]
+            bad = []
+            undecided = []
+            for a, b, g, w_ in diff_tables(got_tbl, want_tbl):
+                if g is None or any(x in ('unknown', 'no-result', 'BUDGET', 'MAYPANIC', 'LOOP') for x in g):
+                    undecided.append((a, b, sorted(g or [])))
+                else:
+                    bad.append((a, b, '/'.join(sorted(g)), '/'.join(sorted(w_ or []))))
+            if undecided and not bad:
+                rep.notes.append('R19.4: the ASCII fold of the no-unicode build could not be evaluated for %s' % undecided[:3])
+            rep.oblige('R19.4', CU.name, ok=not bad, nontrivial=True,
+                       sample={'fn': CU.name, 'config': 'nounicode', 'ascii_values_decided': 128 - sum(b - a + 1 for a, b, _ in undecided),
+                               'rule': "result is c-32 for 'a'..='z' and c for every other ASCII character"})
+            if bad:
+                rep.violation('R19.4', vkey('R19.4', CU.name, 'ascii-fold', ''), CU.loc(CU.span),
+                              'without the `unicode` feature the case folding of ASCII characters differs from ASCII upper-casing '
+                              '(which is what the default build does for them): %s' % '; '.join(
+                                  'U+%04X..U+%04X gives %s, expected %s' % x for x in bad[:4]))
+    except ExtractError:
+        pass
     # ---------------- R19.1b users of the unicode-dependent function
     us = users_of(base, lambda nm: nm.endswith('dir_entry::char_to_uppercase'))
     for user, what in sorted(us.items()):
